@@ -272,9 +272,10 @@ func splitHours(g *rand.Rand, total uint64, n int) []uint64 {
 			case 0:
 				x = 0
 			case 1:
-				x = uint64(g.Int63()) % (rest + 1)
 				if rest == ^uint64(0) {
 					x = g.Uint64()
+				} else {
+					x = uint64(g.Int63()) % (rest + 1)
 				}
 			default:
 				x = rest / uint64(n-i)
@@ -414,6 +415,25 @@ func genFn(g *rand.Rand) fnCase {
 		c.Ux[1].Body.Hours = 1<<63 - uint64(g.Intn(2)) // sum 2^64-1+... around the edge
 	}
 
+	// total input hours within burnFactor-1 of 2^64-1: the rounding-up of the required fee
+	// must not wrap there
+	if g.Intn(12) == 0 && !strings.HasPrefix(c.Target, "ovf") {
+		var rest uint64
+		for i := range c.Ux {
+			c.Ux[i].Head.Time = c.Head
+			if i > 0 {
+				c.Ux[i].Body.Hours = uint64(g.Intn(1000))
+				rest += c.Ux[i].Body.Hours
+			}
+		}
+		span := uint64(c.VP.BurnFactor)
+		if span > 4096 {
+			span = 4096
+		}
+		c.Ux[0].Body.Hours = ^uint64(0) - uint64(g.Intn(int(span))) - rest
+		c.Notes = append(c.Notes, "in-hours-at-top-of-range")
+	}
+
 	// input hours per model
 	in := new(big.Int)
 	computable := true
@@ -464,7 +484,9 @@ func genFn(g *rand.Rand) fnCase {
 		case "fee-negative":
 			fee = 0
 		case "fee-random":
-			if inU > 0 {
+			if inU == ^uint64(0) {
+				fee = g.Uint64()
+			} else if inU > 0 {
 				fee = g.Uint64() % (inU + 1)
 			}
 		default:
